@@ -73,10 +73,24 @@ class MeshLine1(MeshSimplex, Mesh):
                           newt,
                           np.vstack((mid, t[1, marked]))))
 
+        # the unmarked elements come first, then both halves of the marked
+        subdomains = None
+        if self._subdomains is not None:
+            nn, nm = len(nonmarked), len(marked)
+            new_t = np.zeros((2, t.shape[1]), dtype=np.int32) - 1
+            new_t[0, nonmarked] = np.arange(nn, dtype=np.int32)
+            new_t[0, marked] = np.arange(nn, nn + nm, dtype=np.int32)
+            new_t[1, marked] = np.arange(nn + nm, nn + 2 * nm, dtype=np.int32)
+            subdomains = {
+                name: np.setdiff1d(np.unique(new_t[:, ixs]), [-1])
+                for name, ixs in self._subdomains.items()
+            }
+
         return replace(
             self,
             doflocs=newp,
             t=newt,
+            _subdomains=subdomains,
         )
 
     def param(self):
